@@ -423,6 +423,12 @@ func (r *StepRig) Close() {
 	r.cancel()
 	select {
 	case <-r.runDone:
+		// what Initiator.Serve / Acceptor.serve do when they end: without it the handler's goroutine that drains
+		// late errors waits for ever (one goroutine and everything it refers to per rig)
+		func() {
+			defer func() { _ = recover() }()
+			r.H.CloseErrorChan()
+		}()
 	case <-time.After(2 * time.Second):
 	}
 	close(r.stopCol)
